@@ -1,7 +1,7 @@
 /-
   C14 — the proportionality checkers decide their definitions, and the definitions form the known lattice
   core ⇒ EJR ⇒ PJR,  strong ⇒ plain ⇒ up-to-any ⇒ up-to-one.
-  "Equal Shares satisfies EJR up to one / any" is stated, not proved; the harness tests it.
+  "Equal Shares satisfies EJR up to one / any" is stated here and proved in Properties/C14Mes.lean.
 -/
 import PabuProofs.Lemmas.JR
 import PabuModel.MES
@@ -160,7 +160,7 @@ theorem checker_lattice (E : Setting) (M : List (Voter × Nat)) (card : Bool) (W
   exact ⟨plain_imp_any E _ card k W hu hfull, any_imp_one E _ card k W, core_imp_EJR E _ card .none W,
     strong_imp_plain E _ card .none W⟩
 
-/-! ### Equal Shares (stated, not proved; tested by the harness) -/
+/-! ### Equal Shares (stated here; proved, with the hypotheses on the tie-breaking function it needs, in C14Mes) -/
 
 /-- the voters of an approval profile under `Cost_Sat` (`byCost = true`) or `Cardinality_Sat` -/
 def approvalVoters (cost : Pid → Rat) (byCost : Bool) (P : List ((Pid → Bool) × Nat)) : List (Voter × Nat) :=
